@@ -13,8 +13,8 @@ EXHAUSTIVE = {'quick': False, 'thorough': True}
 RULE = ('one case = one scripted server with a moduli policy (subset of {512,768,1024,1536,2048,3072,4096,6144,8192} x selection style strict / round-up / OpenSSH-fallback) offering sha1, sha256 or both group exchanges under an '
         'OpenSSH, Dropbear or unknown banner, audited for real (quick: all subsets of size <= 2 and all suffix subsets; thorough: all 511 subsets).  Oracle: reported size == model(min over the fixed probe sequence of what the policy hands out; '
         'OpenSSH + 2048 => answer to the 2048-3072-4096 probe) and == the same function of the GEX_REQUESTs the peer actually logged; differential 2048/3072 threshold oracle against a 4096-bit baseline; '
-        'refusing / stalling / garbage servers get no size.  Non-trivial: >= 1 GEX_REQUEST logged and a size verdict compared; distinct = distinct (policy, algorithms, banner)')
-REQUIRED = {'multi_target_sizes': 8, 'gex_requests_logged': 200, 'size_verdicts': 40, 'below_2048': 5, 'warn_band': 5, 'no_size_expected': 5, 'openssh_second_pass': 3, 'fault_cases': 3}
+        'refusing / stalling / garbage servers get no size, and so does an OpenSSH server whose fallback answered 2048 but whose follow-up probe (alone) is refused, stalled, truncated or garbled.  Non-trivial: >= 1 GEX_REQUEST logged and a size verdict compared; distinct = distinct (policy, algorithms, banner)')
+REQUIRED = {'followup_faults_observed': 5, 'multi_target_sizes': 8, 'gex_requests_logged': 200, 'size_verdicts': 40, 'below_2048': 5, 'warn_band': 5, 'no_size_expected': 5, 'openssh_second_pass': 3, 'fault_cases': 3}
 ASSUMPTIONS = ['moduli policies are monotone (a larger request never yields a smaller modulus)',
                'for sizes below 2048 only "at least one extra failure note" is demanded (the tool replaces the generic SHA-1 failure text of the sha1 variant by the size text)',
                'the OpenSSH explanatory note is demanded only when the follow-up probe returns a size different from 2048']
@@ -54,6 +54,13 @@ def cases(tier, seed):
     for name, f in faults:
         for b in ('openssh', 'unknown'):
             cs.append({'kind': 'fault', 'fault': name, 'f': f, 'banner': b, 'algs': [GEX256, GEX1], 'render': 'text'})
+    # an OpenSSH server answers 2048 through its fallback, and then only the follow-up 2048-3072-4096 probe fails: the fallback answer is not a measurement
+    i = 0
+    for name, f in faults[1:] + [('refuse', {'at': 'gexgroup', 'op': 'close_before'})]:
+        for sizes in ([[3072, 4096], [4096]] if tier == 'quick' else [[3072], [3072, 4096], [4096], [6144], [3072, 8192]]):
+            for algs in ([[GEX1], [GEX256], [GEX256, GEX1]] if tier == 'thorough' else [[[GEX1], [GEX256], [GEX256, GEX1]][i % 3]]):
+                i += 1
+                cs.append({'kind': 'fault', 'fault': 'followup-' + name, 'f': dict(f, req=[2048, 3072, 4096]), 'banner': 'openssh', 'algs': algs, 'render': 'json' if i % 2 else 'text', 'gex': {'sizes': sizes, 'style': 'openssh'}})
     return cs
 
 
@@ -186,7 +193,7 @@ def run_multi(c):
 def run_case(c):
     if c['kind'] == 'multi':
         return run_multi(c)
-    gex = {'sizes': c['sizes'], 'style': c['style']} if c['kind'] == 'policy' else ({'sizes': [2048, 4096], 'style': 'strict'} if c['fault'] != 'refuse' else None)
+    gex = {'sizes': c['sizes'], 'style': c['style']} if c['kind'] == 'policy' else c['gex'] if c.get('gex') else ({'sizes': [2048, 4096], 'style': 'strict'} if c['fault'] != 'refuse' else None)
     script = {'banner': BANNERS[c['banner']], 'kex': audit.sym_kex(['curve25519-sha256'] + c['algs'], ['ssh-ed25519'], ['aes128-ctr'], ['hmac-sha2-256']),
               'hostkeys': {'ssh-ed25519': {'type': 'ed25519'}}, 'gex': gex, 'linger': 6}
     if c['kind'] == 'fault' and c['f']:
@@ -205,6 +212,12 @@ def run_case(c):
     counters['gex_requests_logged'] = nreq
     if c['kind'] == 'fault':
         counters['fault_cases'] = 1
+        if c['fault'].startswith('followup-'):
+            # the case only says something when the first pass really ended at 2048 and the follow-up request was really sent and really faulted
+            reqs = [e for e in p.events if e['kind'] == 'gex-request']
+            if not any((e['min'], e['pref'], e['max']) == (2048, 3072, 4096) for e in reqs) or p.count('fault') == 0:
+                return {'verdict': 'inconclusive', 'why': 'follow-up probe not observed at the peer'}
+            counters['followup_faults_observed'] = p.count('fault')
         for alg in c['algs']:
             o = obs.get(alg)
             if o is None:
